@@ -9,7 +9,7 @@ META = dict(
     level="proof",
     claim="Result typing (add_type/usual_arith_conv/get_common_type) equals C11 6.3.1 for every operator and operand-type pair; the text emitted by the real gen_expr/cast/load/store/cmp_zero, executed on a ghost x86-64 machine, computes the C11 value of every integer operator, conversion, load, store and truth test for all operand values and arbitrary register garbage. Nesting depth is covered by the recursive contract of gen_expr (children abstract). MUL/DIV/MOD value equality is bounded (8-bit magnitudes).",
     note="Trusted: CBMC, the ghost x86 machine (spec/x86_ghost.h, written from the Intel SDM), spec/c11_ops.h, the assembler/CPU. Not covered: the expression grammar (precedence/associativity), parser-side conversion insertion for arguments/returns (see C06), op= and ++/-- rewriting.",
-    functions=["codegen.c:gen_expr", "codegen.c:push", "codegen.c:pop", "codegen.c:cast", "codegen.c:load", "codegen.c:store", "codegen.c:cmp_zero", "parse.c:to_assign", "type.c:add_type", "type.c:get_common_type", "type.c:usual_arith_conv"],
+    functions=["codegen.c:gen_expr", "codegen.c:push", "codegen.c:pop", "codegen.c:cast", "codegen.c:load", "codegen.c:store", "codegen.c:cmp_zero", "parse.c:to_assign", "parse.c:new_add", "parse.c:new_sub", "type.c:add_type", "type.c:get_common_type", "type.c:usual_arith_conv"],
     trusted_base=["CBMC 6.11", "spec/x86_ghost.h (Intel SDM rendering)", "spec/c11_ops.h"],
     assumptions=[],
 )
@@ -42,6 +42,10 @@ def jobs(tier):
         js.append(Job(name=f"typing-{k}", src="typing.c", group="C01.1 result typing", defs={"KIND": k}, units=["parse.c"], mode="plain",
                       cut=["error", "error_tok", "error_at", "warn_tok"], timeout=180,
                       sample=f"add_type({k}) for every pair of integer operand types"))
+    for opn, nm in ((0, "add"), (1, "sub"), (2, "diff")):
+        js.append(Job(name=f"ptrarith-{nm}", src="ptrarith.c", group="C01.2 pointer arithmetic scaling", defs={"OPN": str(opn)}, units=["type.c", "hashmap.c", "strings.c"], mode="plain",
+                      cut=["error", "error_tok", "error_at", "warn_tok"], havoc=["format"], cut_defined=["rehash"], timeout=180, unwind=20, replay=None,
+                      sample=f"new_{'add' if opn == 0 else 'sub'} on pointer operands, element size symbolic, VLA rows included"))
     for form in (0, 1, 2):
         for k in ("ND_DIV", "ND_MOD", "ND_SHR", "ND_ADD"):
             js.append(Job(name=f"toassign-form{form}-{k}", src="toassign.c", group="C01.2 op= rewriting", defs={"KIND": k, "FORM": str(form)}, units=["type.c", "hashmap.c", "strings.c"], mode="plain",
